@@ -724,6 +724,23 @@ func runC04(c *core.Ctx) core.Meta {
 								break
 							}
 						}
+						// a size step for a constant that is part of the opcode (v_madak / v_madmk K): its block fills a LiteralConstant
+						found := false
+						for _, x := range incs {
+							if x.n == n {
+								found = true
+							}
+						}
+						if !found {
+							for _, i2 := range n.Block.Instrs {
+								if st2, ok := i2.(*ssa.Store); ok {
+									if f2 := core.FieldOfAddr(st2.Addr); f2 != nil && f2.Name() == "LiteralConstant" {
+										incs = append(incs, inc{n, "K"})
+										break
+									}
+								}
+							}
+						}
 					}
 				}
 			}
@@ -1039,6 +1056,79 @@ func runC04(c *core.Ctx) core.Meta {
 			c.ReportAt("R04.11", fn, in.Pos(), "nil-decode-table", core.FuncName(fn)+" dereferences decodeTables["+short(keyProv)+"] on a path that did not find it non-nil: for a word of a format that has no rows (MUBUF, MTBUF, MIMG, EXP, VINTRP) decoding faults with a nil-pointer dereference instead of returning an error")
 		}
 	})
+
+	// ---------------- R04.12 a destination decoded from an operand code is a register ----------------
+	st12 := c.Rule("R04.12", "where a destination operand (Dst / SDst) is obtained from getOperand with an operand code whose interval reaches the inline constants and the literal (codes 128..255), the decoder returns successfully only on a path that found the operand to be a register: a constant as destination is not an instruction, and executing it dereferences a nil register", 1)
+	regOperandConst := int64(-1)
+	if o := pi.Pkg.Pkg.Scope().Lookup("RegOperand"); o != nil {
+		if k, ok := o.(*types.Const); ok {
+			regOperandConst, _ = constant.Int64Val(k.Val())
+		}
+	}
+	for _, fn := range pi.Funcs {
+		if !strings.HasPrefix(fn.Name(), "decode") {
+			continue
+		}
+		var g *core.Graph
+		for _, b := range fn.Blocks {
+			for _, in := range b.Instrs {
+				stv, ok := in.(*ssa.Store)
+				if !ok {
+					continue
+				}
+				f := core.FieldOfAddr(stv.Addr)
+				if f == nil || (f.Name() != "Dst" && f.Name() != "SDst") {
+					continue
+				}
+				ex, ok := stv.Val.(*ssa.Extract)
+				if !ok {
+					continue
+				}
+				call, ok := ex.Tuple.(*ssa.Call)
+				if !ok || core.CalleeFunc(call) == nil || core.CalleeFunc(call).Name() != "getOperand" {
+					continue
+				}
+				iv := intervalOf(call.Call.Args[0], 0)
+				if iv.hi < 128 || iv.lo > 255 {
+					continue // 7-bit destination fields name scalar registers only (or fail); codes 256..511 are vector registers
+				}
+				st12.Instances++
+				c.MarkAnalysed(fn)
+				if g == nil {
+					g = core.BuildGraph(fn, 0, nil)
+				}
+				field := f.Name()
+				cut := CmpCut(func(_ *core.Node, op token.Token, x, y ssa.Value) int {
+					if !strings.HasSuffix(prov.Of(x), "."+field+".OperandType") {
+						return 0
+					}
+					k, isC := core.ConstInt(y)
+					if !isC || k != regOperandConst {
+						return 0
+					}
+					switch op {
+					case token.EQL:
+						return 1
+					case token.NEQ:
+						return -1
+					}
+					return 0
+				})
+				okG := true
+				// from this store, a successful return must not be reachable once the "is a register" edges are removed
+				g.Walk(core.After(g.NodeOf(in), nil), core.WalkOpts{CutEdge: func(n *core.Node, i int) bool { return cut(n, i) }}, func(stt core.State) {
+					if r, isR := stt.N.Instr.(*ssa.Return); isR && len(r.Results) == 1 && core.IsNilConst(r.Results[0]) {
+						okG = false
+					}
+				})
+				st12.Ob(okG)
+				st12.Sample("%s: %s = getOperand(code in [%d,%d]); success only for a register: %v", core.FuncName(fn), field, iv.lo, iv.hi, okG)
+				if !okG {
+					c.ReportAt("R04.12", fn, in.Pos(), "non-register-destination:"+field, fmt.Sprintf("%s takes %s from getOperand with an operand code in [%d,%d] and returns successfully without checking that the operand is a register: an encoding whose destination field names an inline constant or the literal decodes to an instruction with a nil destination register", core.FuncName(fn), field, iv.lo, iv.hi))
+				}
+			}
+		}
+	}
 
 	// ---------------- R04.6 callers use the error path ----------------
 	st6 := c.Rule("R04.6", "every caller of Disassembler.Decode uses the decoded instruction only on paths on which the returned error was found nil", 3)
